@@ -671,7 +671,14 @@ impl LatestBlockFilterHashes {
             );
             return Err(StatusCode::Ignore.with_context(errmsg));
         }
-        let mut end_number = start_number + block_filter_hashes.len() as BlockNumber - 1;
+        let mut end_number = if let Some(end_number) =
+            start_number.checked_add(block_filter_hashes.len() as BlockNumber - 1)
+        {
+            end_number
+        } else {
+            let errmsg = format!("start number ({}) is too large", start_number);
+            return Err(StatusCode::BlockFilterHashesIsUnexpected.with_context(errmsg));
+        };
         if finalized_check_point_number >= end_number {
             let errmsg = format!(
                 "finalized check point ({}) is not less than end number ({})",
@@ -755,7 +762,9 @@ impl LatestBlockFilterHashes {
         }
         // Update block filter hashes.
         let index = start_index_for_new + self.inner[start_index_for_old..].len();
-        self.inner.extend_from_slice(&block_filter_hashes[index..]);
+        if index < block_filter_hashes.len() {
+            self.inner.extend_from_slice(&block_filter_hashes[index..]);
+        }
         if end_number < last_proved_number {
             Ok(Some(end_number + 1))
         } else {
